@@ -13,10 +13,14 @@ export CARGO_NET_OFFLINE=true
 cd $WT
 git checkout -q -- src 2>/dev/null; git apply seed_out/patch.diff || { echo "patch does not apply"; exit 2; }
 mkdir -p tests; cp seed_out/demo.rs tests/seed_demo.rs
-echo "== demo WITH change"; cargo test --offline --test seed_demo 2>&1 | grep -E "^test |test result" | head -8 | tee $OUT/demo_with_change.txt
+DF=""; grep -q "verif_" seed_out/demo.rs && DF="--cfg probminhash_verif"   # demo uses the guarded hooks
+echo "== demo WITH change"; RUSTFLAGS="$DF" cargo test --offline --test seed_demo 2>&1 | grep -E "^test |test result" | head -8 | tee $OUT/demo_with_change.txt
 git checkout -q -- src
-echo "== demo WITHOUT change"; cargo test --offline --test seed_demo 2>&1 | grep -E "^test |test result" | head -8 | tee $OUT/demo_without_change.txt
+echo "== demo WITHOUT change"; RUSTFLAGS="$DF" cargo test --offline --test seed_demo 2>&1 | grep -E "^test |test result" | head -8 | tee $OUT/demo_without_change.txt
 git apply seed_out/patch.diff
+echo "== pinned test suite WITH change (the 4 tests outside the stable set skipped)"
+rm -f tests/seed_demo.rs
+cargo test --offline --lib -- --skip test_revoptdens_manybins_fnv_f64 --skip test_ordminhash2_p1 --skip test_ordminhash2_p2 --skip test_ordminhash2_p3 2>&1 | grep -E "test result|FAILED|failed" | head -8 | tee $OUT/tests_with_change.txt
 echo "== check in /repo with the change ($P, $TIER)"
 cd /repo && git apply $OUT/patch.diff || { echo "patch does not apply to /repo"; exit 2; }
 cd /verif && ./check $P --tier $TIER > $OUT/check_output.txt 2>&1; RC=$?
